@@ -107,7 +107,7 @@ twin('C09', 'pyiga/assemble_tools_cy.pyx', None, r"y\[0, 1\] = \(x\[0, 2\] \* x\
 brk('C10', 'R10.1', 'pyiga/assemble.py', 'pyiga.assemble.RestrictedLinearSystem.__init__', r"values = np\.asarray\(values\)\[np\.argsort\(indices, kind='stable'\)\]", 'values = np.asarray(values)', 'values no longer sorted with the indices')
 brk('C10', 'R10.2', 'pyiga/assemble.py', 'pyiga.assemble.combine_bcs', r"return uidx, values\[lookup\]", 'return uidx, values[:len(uidx)]', 'values decoupled from the unique indices')
 brk('C10', 'R10.4', 'pyiga/assemble.py', 'pyiga.assemble.compute_dirichlet_bcs', r"for bd in \(0,1\)\]", 'for bd in (0,)]', "'all' covers only the lower sides")
-twin('C10', 'pyiga/assemble.py', 'pyiga.assemble.RestrictedLinearSystem.__init__', r"values = np\.asarray\(values\)\[np\.argsort\(indices, kind='stable'\)\]", "order = np.argsort(indices)\n            values = np.asarray(values)[order]", 'argsort through a local')
+twin('C10', 'pyiga/assemble.py', 'pyiga.assemble.RestrictedLinearSystem.__init__', r"values = np\.asarray\(values\)\[np\.argsort\(indices, kind='stable'\)\]", "order = np.argsort(indices, kind='stable')\n            values = np.asarray(values)[order]", 'argsort through a local')
 # ---- C11
 brk('C11', 'R11.1', 'pyiga/relaxation_cy.pyx', None, r"I0,I1,Is = indices\.shape\[0\] - 1, -1, -1", 'I0,I1,Is = indices.shape[0] - 1, 0, -1', 'backward sweep skips the first index')
 brk('C11', 'R11.2', 'pyiga/hierarchical.py', 'pyiga.hierarchical.HSpace.func_supp_indices', r"indices\[lv\]\[i\] = sorted\(funcs - self\.index_dirichlet\[lv\]\[i\]\)", 'indices[lv][i] = sorted(funcs)', 'Dirichlet dofs enter the smoothing set')
